@@ -19,7 +19,7 @@ from lx.lifted import dump_runner
 
 PID = "C06"
 BOUNDS = ("corpus of checks/corpus.py, the 12 chain scripts of C04 and 6 dialect-specific statements (paths, LATERAL VIEW); up to 5 (quick) / "
-          "7 (thorough) free names per instance (2 characters)")
+          "6 (thorough) free names per instance (2 characters)")
 STUBS = ["sqllineage.runner.split / SqlFluffLineageAnalyzer._list_specific_statement_segment (parser boundary)"]
 ASSUMPTIONS = ["SQL validity assumptions of C08", "the combined graph is read through runner._sql_holder.graph",
                "a statement that reads the table it writes (self-insert) is exempt from the 'has at least one hop' clause only when the "
@@ -179,7 +179,7 @@ def obligations(tier, seed):
 
     rnd = random.Random("c06/%s" % seed)
     tpl = corpus.build(tier, seed)
-    obs = [StmtWF(k, st, 5 if tier == "quick" else 7, seed) for k, st in tpl if st.kind not in ("show", "use")]
+    obs = [StmtWF(k, st, 5 if tier == "quick" else 6, seed) for k, st in tpl if st.kind not in ("show", "use")]
     if tier == "quick":
         keep = [o for o in obs if ("/plain" in o.key and "/insert/" in o.key) or "merge" in o.key or "update" in o.key or "nodata" in o.key
                 or "scalar" in o.key or "expr/" in o.key]
